@@ -6,9 +6,24 @@ ROOT = os.path.dirname(os.path.dirname(os.path.abspath(__file__)))
 
 # id -> (category, technique, text, note, design_ref)
 CHECKS = {
+ "C01": ("exploration", "model-based property testing: generated tracker histories vs monitor model of ids/epochs/lengths and echo checks",
+         "Generated multi-scene histories (crowded, overlapping, duplicated, appearing/disappearing, rotated boxes) for all four trackers; after every call: one record per detection in submission order (custom id and observed box echoed), scene and epoch, length = attachments, ids distinct within the call, new ids never issued before, continued ids live and of the same scene, and the stored track read back through the public accessor agrees with the record.",
+         "Cases run in child processes (a dead worker thread of the library is reported, a hang is exit 2). Observed-box echo within 2 ulp.", "3/C01"),
+ "C03": ("exploration", "model-based property testing + metamorphic relation over auto-waste periodicities",
+         "Generated interleavings of predict / skip / wasted / idle / clear_wasted / set_auto_waste / epoch / statistics for all four trackers against a monitor model (conservation, exact expiry, wasted exactly once, idle set, place partition by walking every shard of both stores, statistics), plus the same history under periodicities 0/1/100 compared for identical observable behaviour.",
+         "Which tracks clear_wasted discards is read from the wasted store right before the call. Differential comparison cut at calls whose decision margin (f64 shadow) is below 1e-4.", "3/C03"),
+ "C04": ("exploration", "differential property testing: interleaved multi-scene run vs per-scene projections, up to id renaming, tie-cut by shadow margins",
+         "Generated multi-scene histories whose scenes replay the same trajectories in the same image region; per scene the record sequence of the interleaved run must equal that of the projection (bit-equal boxes, epochs, lengths, voting types) under an incrementally built id bijection; no record ever joins a track of another scene.",
+         "Tie-free by construction plus margin cut (a call with a decision margin below 1e-4 ends the comparison of that scene).", "3/C04"),
+ "C12": ("exploration", "property-based testing with an independent f64 re-derivation of VisualSORT decisions (claims, weights, gates) from observable galleries",
+         "Generated VisualSort / BatchVisualSort histories with look-alike objects, occlusions, missing and low-quality features under random option combinations; before every call the appearance claims and positional weights are re-derived from the stored galleries and filter states, and every record is checked against rules (i)-(vi) of DESIGN 3/C12.",
+         "Calls with a decision closer than 1e-4 to a threshold or between two weights are counted (band) and not asserted. Own-area shares come from the inclusion-exclusion oracle; near-degenerate box sets are thinned by the generator when own-area thresholds are on (D9).", "3/C12"),
+ "C13": ("exploration", "property-based testing: invariant over every update comparing gallery before/after and histories vs the monitor's full log",
+         "Generated lifetimes up to 300 updates with quality patterns (increasing/decreasing/constant/around the threshold/equal values), plus crowded histories: feature bound, collect gate, sub-multiset, lowest-quality-first eviction, truthful count, newest-first-and-only-box; observed/predicted/feature histories equal the last min(length, history) log entries, also in the wasted-track conversions.",
+         "The very first observation of a track is taken as given (statement does not pin it).", "3/C13"),
  "C02": ("exploration", "property-based testing + exhaustive small-matrix enumeration: SortVoting vs subset-DP optimal assignment",
          "Level A: the voting engine on every weight matrix of shape <=3x3 over a grid straddling the threshold (exhaustive) and on random matrices up to 8x8 with shuffled arrival order; the result must be one-to-one over reported pairs, never below the gate, and its total must equal the DP optimum with 'unmatched = threshold'.",
-         "Totals compared within rows*(2e-6 + 4e-7*max|w|) (1e-6 integerisation, f32 scaling). Tracker-level part (level B) is added by the tracker harness.", "3/C02"),
+         "Level A totals compared within rows*(2e-6 + 4e-7*max|w|). Level B: Sort / BatchSort histories; before every call the weights are recomputed in f64 from the observable state (posterior boxes, raw Kalman state via the guarded accessor) and the call's continuations must be gated pairs of live tracks with optimal total; calls with a decision within 1e-4 of a threshold are band.", "3/C02"),
  "C07": ("exploration", "property-based testing: generated predict/update sequences vs dense f64 textbook Kalman filter; exact cost/gate relations",
          "Generated measurement sequences (<=300 steps, seven motion modes) compared step by step with an independent dense f64 filter: mean, covariance (symmetry, SPD by f64 Cholesky, entries), distance against the filter's own state and against the reference; stationary objects; vector filter bit-equal to point filters; cost conversions exact for every generated d incl. +-3 ulp around each chi-square entry.",
          "Tolerances >= 5x measured f32 drift inside the regular envelope (height within x10, <=3 predict-only steps in a row). Outside it only finiteness/SPD/no-panic are asserted and D10 is a listed known finding.", "3/C07"),
@@ -31,8 +46,8 @@ CHECKS = {
          "Generated streams for TopN / BestFit / Hungarian voting checked against an f64 re-implementation written from the statement; validity under ties; order independence under random permutations and under all n! permutations of 2..5-item streams.",
          "Weights within 1e-6 relative; weights closer than 1e-3 count as ties.", "3/C17"),
  "C20": ("exploration", "exhaustive enumeration of constraint tables and probes vs reference lookup",
-         "Every table over <=3 configured gaps in 0..8 x 5 limits, with duplicates and insertion orders, probed at gaps 0..10 x 32 distances (each limit +-2 ulp) against 'limit of the smallest configured gap >= d, first insertion wins'; monotone in distance; builder = add_constraints. Tracker-level part is added by the tracker harness.",
-         "Table level is exhaustive for the enumerated space only.", "3/C20"),
+         "Every table over <=3 configured gaps in 0..8 x 5 limits, with duplicates and insertion orders, probed at gaps 0..10 x 32 distances (each limit +-2 ulp) against 'limit of the smallest configured gap >= d, first insertion wins'; monotone in distance; builder = add_constraints. Tracker level: binding tables (every continuation admitted by the reference lookup, optimal among admitted pairs) and non-binding tables (limits 1e6) = unconstrained run, bit-equal up to ids.",
+         "Table level is exhaustive for the enumerated space only; tracker level is sampled.", "3/C20"),
  "C08": ("exploration", "property-based testing: generated box pairs vs independent f64 convex-clipping oracle; metamorphic rigid motions",
          "Generated-input search (proptest, shrinking) over constructed pair configurations against an independent f64 geometry kernel with stated tolerances, plus symmetry/range/identity/rigid-motion relations and the soundness of the too_far pre-filter. Held-on-everything-explored, not a proof.",
          "Trusts oracle/geom.rs (self-checked for symmetry per case); tolerances 1e-4 of the smaller area (+ eps64*coord^2 term for the absolute-coordinate clipper), IoU 2e-4; touching configurations three-valued.", "3/C08"),
